@@ -486,6 +486,67 @@ Step(t) ==
   \/ H_acq(t) \/ H_gettop(t) \/ H_newtop(t) \/ H_getleaf(t) \/ H_newleaf(t) \/ H_check(t) \/ H_write(t) \/ H_rel(t) \/ H_ret(t)
   \/ L_acq(t) \/ L_read(t) \/ L_rel(t) \/ L_ret(t)
 
+\* The same relation, dispatched on the label of the top frame (one action evaluated per thread instead
+\* of 55 guards): used for the large runs; the disjunctive form keeps TLC's per-action coverage.
+FastStep(t) ==
+  IF stk[t] = <<>> THEN Begin(t)
+  ELSE LET pc == Top(t).pc IN
+    CASE
+         pc = "C_acq" -> C_acq(t)
+      [] pc = "C_probe" -> C_probe(t)
+      [] pc = "C_probe2" -> C_probe2(t)
+      [] pc = "C_fillold" -> C_fillold(t)
+      [] pc = "C_fill1" -> C_fill1(t)
+      [] pc = "C_fill2" -> C_fill2(t)
+      [] pc = "C_init" -> C_init(t)
+      [] pc = "C_rel" -> C_rel(t)
+      [] pc = "C_ret" -> C_ret(t)
+      [] pc = "T_acq" -> T_acq(t)
+      [] pc = "T_probe" -> T_probe(t)
+      [] pc = "T_fill" -> T_fill(t)
+      [] pc = "T_rel" -> T_rel(t)
+      [] pc = "T_ret" -> T_ret(t)
+      [] pc = "PA_acq" -> PA_acq(t)
+      [] pc = "PA_test" -> PA_test(t)
+      [] pc = "PA_pop" -> PA_pop(t)
+      [] pc = "PA_make" -> PA_make(t)
+      [] pc = "PA_rel" -> PA_rel(t)
+      [] pc = "PR_acq" -> PR_acq(t)
+      [] pc = "PR_push" -> PR_push(t)
+      [] pc = "PR_rel" -> PR_rel(t)
+      [] pc = "G_probe" -> G_probe(t)
+      [] pc = "G_fill0" -> G_fill0(t)
+      [] pc = "G_bfs1" -> G_bfs1(t)
+      [] pc = "G_bfs2" -> G_bfs2(t)
+      [] pc = "G_fill" -> G_fill(t)
+      [] pc = "G_ret" -> G_ret(t)
+      [] pc = "B_tprobe" -> B_tprobe(t)
+      [] pc = "B_wenter" -> B_wenter(t)
+      [] pc = "B_tfill" -> B_tfill(t)
+      [] pc = "B_wexit" -> B_wexit(t)
+      [] pc = "B_ret" -> B_ret(t)
+      [] pc = "D_dprobe" -> D_dprobe(t)
+      [] pc = "D_dfill" -> D_dfill(t)
+      [] pc = "D_init" -> D_init(t)
+      [] pc = "D_wenter" -> D_wenter(t)
+      [] pc = "D_gen" -> D_gen(t)
+      [] pc = "D_wexit" -> D_wexit(t)
+      [] pc = "D_post" -> D_post(t)
+      [] pc = "D_ret" -> D_ret(t)
+      [] pc = "H_acq" -> H_acq(t)
+      [] pc = "H_gettop" -> H_gettop(t)
+      [] pc = "H_newtop" -> H_newtop(t)
+      [] pc = "H_getleaf" -> H_getleaf(t)
+      [] pc = "H_newleaf" -> H_newleaf(t)
+      [] pc = "H_check" -> H_check(t)
+      [] pc = "H_write" -> H_write(t)
+      [] pc = "H_rel" -> H_rel(t)
+      [] pc = "H_ret" -> H_ret(t)
+      [] pc = "L_acq" -> L_acq(t)
+      [] pc = "L_read" -> L_read(t)
+      [] pc = "L_rel" -> L_rel(t)
+      [] pc = "L_ret" -> L_ret(t)
+
 \* Steps that touch nothing but the thread's own control state (invocation, response, a call)
 \* are taken at once: a sound reduction, since no other thread can observe or disable them.
 LocalLbl == {"C_ret", "T_ret", "G_ret", "B_ret", "D_ret", "H_ret", "L_ret", "D_post"}
@@ -494,6 +555,10 @@ Urgent(t) == \/ stk[t] = <<>> /\ ip[t] < ProgLen
 Next == IF \E t \in Thr : Urgent(t)
         THEN Step(CHOOSE t \in Thr : Urgent(t))
         ELSE (\E t \in Thr : Step(t)) \/ Finished
+FastNext == IF \E t \in Thr : Urgent(t)
+            THEN FastStep(CHOOSE t \in Thr : Urgent(t))
+            ELSE (\E t \in Thr : FastStep(t)) \/ Finished
+FastSpec == Init /\ [][FastNext]_vars
 Spec == Init /\ [][Next]_vars
 
 \* ---------------------------------------------------------------- the sequential reference
